@@ -145,6 +145,43 @@ def pfn_set(rng, limit, maxpages):
     return sorted(s)
 
 
+def dense_pfn_set(rng, limit):
+    """Page frame sets with the shapes the bitmap scanners of pfn.c care about (byte loop, aligned
+    32-bit word loop, first/last partial byte): long all-ones stretches with short holes, runs that
+    start and end at every position relative to byte / 32-bit / 64-bit boundaries, long all-zero
+    stretches, and words that are all ones but for a short hole, entered by a run that starts in the
+    bytes before the word."""
+    n = min(limit, rng.choice([72, 96, 130, 160, 200]))
+    base = rng.choice([0, 0, 8, 24, 32, 40, 56, 64, 96]) if limit >= n + 96 else 0
+    bits = [0] * n
+    pos = rng.choice([0, 0, 1, 3, 7, 8, 20, 24, 29, 31])
+    while pos < n:
+        run = rng.choice([1, 3, 8, 12, 24, 31, 32, 33, 40, 57, 64, 65, 70])
+        for i in range(pos, min(n, pos + run)):
+            bits[i] = 1
+        pos += run + rng.choice([1, 1, 2, 3, 4, 4, 7, 8, 9, 16, 32, 33, 64])
+    for _ in range(rng.randint(1, 2)):
+        w = rng.randrange(0, max(1, n // 32)) * 32
+        if w + 32 <= n:
+            for i in range(max(0, w - rng.randint(1, 12)), w + 32):
+                bits[i] = 1
+            h = w + rng.randrange(0, 28)
+            for i in range(h, h + rng.randint(1, 4)):
+                bits[i] = 0
+    if rng.random() < 0.3:                       # the whole bitmap prefix set
+        bits = [1] * n
+        for _ in range(rng.randint(0, 2)):
+            bits[rng.randrange(n)] = 0
+    pfns = [base + i for i, b in enumerate(bits) if b and base + i < limit]
+    return pfns[:170]
+
+
+def dense_page(p, pgsz):
+    """Cheap page content that identifies its page frame."""
+    unit = struct.pack("<IHBB", p * 2654435761 & 0xffffffff, p & 0xffff, (p * 7 + 1) & 0xff, 0x5a)
+    return (unit * (pgsz // 8 + 1))[:pgsz]
+
+
 # ---------------------------------------------------------------------------
 # diskdump
 # ---------------------------------------------------------------------------
@@ -207,12 +244,13 @@ def gen_dd(rng, big=False):
                     cover - rng.randint(0, 9) if r < 0.8 else rng.randint(1, cover))
     else:
         maxmapnr = rng.randint(cover // 2 + 1, cover)
-    pfns = pfn_set(rng, maxmapnr, 10 if shift <= 13 else 5)
+    dense = shift == 12 and maxmapnr >= 72 and rng.random() < 0.3
+    pfns = dense_pfn_set(rng, maxmapnr) if dense else pfn_set(rng, maxmapnr, 10 if shift <= 13 else 5)
     entries = [None] * ((pfns[-1] + 1) if pfns else 0)
     meths = {}
     for p in pfns:
-        content = page_content(rng, pgsz)
-        m = rng.choice(DD_METHODS)
+        content = dense_page(p, pgsz) if dense else page_content(rng, pgsz)
+        m = rng.choice(["raw", "zlib"]) if dense else rng.choice(DD_METHODS)
         flags, payload = dd_payload(rng, m, content)
         if rng.random() < 0.15:
             flags |= rng.choice([0x8, 0x10, 0x40, 0x100, 0x80000000])   # bits no reader knows
@@ -237,8 +275,9 @@ def gen_dd(rng, big=False):
         "vmci": hexb(vmci), "notes": hexb(notes), "erase": "",
         "memextra": memextra, "gap": hx(rng.choice([0, 0, 8, pgsz - 24, 100])),
     }
-    info = {"pgsz": pgsz, "maxpfn": maxmapnr, "pfns": pfns, "methods": meths,
-            "key": "dd w%d be%d pad%d v%d pg%d two%d" % (64 if w64 else 32, be, pad, ver, shift, two)}
+    info = {"pgsz": pgsz, "maxpfn": maxmapnr, "pfns": pfns, "methods": meths, "dense": dense,
+            "key": "dd w%d be%d pad%d v%d pg%d two%d%s" % (64 if w64 else 32, be, pad, ver, shift, two,
+                                                          " dense" if dense else "")}
     if ver >= 2 and maxmapnr >= 4 and rng.random() < 0.3:
         # a split set: non-empty, pairwise disjoint windows that cover [0, max_mapnr), files in any order
         nf = rng.randint(2, min(4, maxmapnr))
@@ -503,10 +542,11 @@ def gen_sadump(rng, big=False):
     r = rng.random()
     maxmapnr = (rng.randint(1, 0x140) if r < 0.6 else cover - rng.randint(0, 9) if r < 0.8
                 else rng.randint(1, cover))
-    pfns = pfn_set(rng, maxmapnr, 12)
+    dense = maxmapnr >= 72 and rng.random() < 0.4
+    pfns = dense_pfn_set(rng, maxmapnr) if dense else pfn_set(rng, maxmapnr, 12)
     entries = [None] * ((pfns[-1] + 1) if pfns else 0)
     for p in pfns:
-        entries[p] = (0, b"", page_content(rng, 4096))
+        entries[p] = (0, b"", dense_page(p, 4096) if dense else page_content(rng, 4096))
     ndisk = 1
     dpages = []
     if kind == "d":
@@ -530,9 +570,10 @@ def gen_sadump(rng, big=False):
            "vols": ".".join(hexb(v) for v in vols), "dpages": ".".join(hx(c) for c in dpages),
            "sethdr": hx(max(1, (16 + 32 * ndisk + bs - 1) // bs)), "magic0": hx(rng.choice([0, 0, 7, 0xfffffff0])),
            "order": ".".join(str(d) for d in order)}
-    info = {"pgsz": 4096, "maxpfn": maxmapnr, "pfns": pfns, "nfiles": ndisk,
-            "key": "sadump %s bs%d v%d cpus%d %s disks%d" % (kind, bs, ver, ncpu,
-                                                             "x86_64" if any(lma) else "ia32", ndisk)}
+    info = {"pgsz": 4096, "maxpfn": maxmapnr, "pfns": pfns, "nfiles": ndisk, "dense": dense,
+            "key": "sadump %s bs%d v%d cpus%d %s disks%d%s" % (kind, bs, ver, ncpu,
+                                                               "x86_64" if any(lma) else "ia32", ndisk,
+                                                               " dense" if dense else "")}
     return lay, entries, info
 
 
